@@ -309,6 +309,15 @@ def py_tables(idx: Index) -> Tuple[ast.Dict, ast.Dict, Dict[str, ast.FunctionDef
     return tables["operators"], tables["builtins"], funcs
 
 
+def _parse_expression(idx: Index) -> FuncInfo:
+    """parseExpression with locals that merely name a read of its parameter (kind = type(expression), node_type = expression["type"])
+    written out: the rules are phrased over the tests on the parameter."""
+    import dataclasses
+    from ..util import write_out_param_reads
+    fi = idx.func(PY, "parseExpression")
+    return dataclasses.replace(fi, node=write_out_param_reads(fi.node))
+
+
 def extract_py(idx: Index, res: Optional[Result] = None) -> Tuple[List[XRenderer], Dict[str, str]]:
     """Templates of every entry of py.operators and py.builtins; second value: name -> reason for entries not extracted."""
     ops, bis, funcs = py_tables(idx)
@@ -595,7 +604,7 @@ def check_c03(idx: Index, tier: str, res: Result) -> None:
     _paren_nodes(idx, res)
 
     # ---- (5) loud failure --------------------------------------------------------------------------------------------------------
-    pe = idx.func(PY, "parseExpression")
+    pe = _parse_expression(idx)
     branches = {}
     for n in walk_no_nested(pe.node):            # a sequence of ifs or an if/elif chain
         if isinstance(n, ast.If) and isinstance(n.test, ast.Compare) and 'expression["type"]' in src(n.test).replace("'", '"') \
@@ -830,8 +839,18 @@ def _paren_nodes(idx: Index, res: Result) -> None:
         else:
             raise AnalysisError("visit_Atom: unrecognised return on the parenthesised branch: %s" % src(v)[:60])
     res.floor("returns on the parenthesised branch of visit_Atom", nret, 1)
-    pe = idx.func(PY, "parseExpression")
-    num = [n for n in pe.node.body if isinstance(n, ast.If) and "float" in src(n.test) and "expression" in src(n.test) and
+    pe = _parse_expression(idx)
+    from ..util import deref as _deref_
+
+    def _written_out(e):
+        """the test with named intermediates (kind = type(expression)) written out"""
+        class W(ast.NodeTransformer):
+            def visit_Name(self, node):
+                v = _deref_(pe.node, node)
+                return copy.deepcopy(v) if v is not node else node
+        import copy
+        return src(W().visit(copy.deepcopy(e)))
+    num = [n for n in pe.node.body if isinstance(n, ast.If) and "float" in src(n.test) and "expression" in _written_out(n.test) and
            any(isinstance(x, ast.Return) for x in n.body)]
     if not num:
         raise AnalysisError("parseExpression: number branch not found")
@@ -1385,7 +1404,7 @@ def check_c04(idx: Index, tier: str, res: Result) -> None:
 
     # ---- (2) previous() ---------------------------------------------------------------------------------------------------
     subs = _previous_regexes(idx)
-    pe = idx.func(PY, "parseExpression")
+    pe = _parse_expression(idx)
     idtmpl = None
     for n in ast.walk(pe.node):
         if isinstance(n, ast.Return) and isinstance(n.value, ast.Call) and call_name(n.value) == "format" and "self.memoize" in src(n.value.func.value):
@@ -1547,7 +1566,7 @@ def _time_shift_builtins(idx: Index, res: Result) -> None:
     """DELAY and INIT move the time argument of an already generated text with re.sub / str.replace.  Their constants are read
     from the source and applied (standard library semantics, no repository code runs) to sample texts built from the
     extracted identifier template."""
-    pe = idx.func(PY, "parseExpression")
+    pe = _parse_expression(idx)
     idtmpl = None
     for n in ast.walk(pe.node):
         if isinstance(n, ast.Return) and isinstance(n.value, ast.Call) and call_name(n.value) == "format" and "self.memoize" in src(n.value.func.value):
